@@ -690,6 +690,60 @@ fn main() {
             .collect(),
     );
     let n = lines.len();
+    // Isolation mode (used after a batch made the whole process abort, e.g. on an allocation failure, which
+    // catch_unwind cannot stop): every case runs in a child process of its own; a child that dies is an "ABORT".
+    if std::env::var("HARNESS_ISOLATE").ok().as_deref() == Some("1") {
+        let exe = std::env::current_exe().unwrap();
+        let results: Arc<Mutex<Vec<String>>> = Arc::new(Mutex::new(vec![String::new(); n]));
+        let next = Arc::new(AtomicUsize::new(0));
+        let mut hs = vec![];
+        for t in 0..nthreads {
+            let lines = lines.clone();
+            let results = results.clone();
+            let next = next.clone();
+            let exe = exe.clone();
+            let cap = cap_secs;
+            hs.push(std::thread::spawn(move || loop {
+                let i = next.fetch_add(1, Ordering::SeqCst);
+                if i >= lines.len() {
+                    break;
+                }
+                let tmp = std::env::temp_dir().join(format!("svh-iso-{}-{}-{}.case", std::process::id(), t, i));
+                std::fs::write(&tmp, format!("{}\n", lines[i])).unwrap();
+                let out = std::process::Command::new(&exe)
+                    .arg(&tmp)
+                    .arg(cap.to_string())
+                    .env_remove("HARNESS_ISOLATE")
+                    .env("HARNESS_THREADS", "1")
+                    .output();
+                let _ = std::fs::remove_file(&tmp);
+                let r = match out {
+                    Ok(o) if o.status.success() => {
+                        let s = String::from_utf8_lossy(&o.stdout).to_string();
+                        let l = s.lines().next().unwrap_or("").to_string();
+                        if l.is_empty() {
+                            "ABORT".to_string()
+                        } else {
+                            l
+                        }
+                    }
+                    _ => "ABORT".to_string(),
+                };
+                results.lock().unwrap()[i] = r;
+            }));
+        }
+        for h in hs {
+            h.join().unwrap();
+        }
+        let res = results.lock().unwrap();
+        let mut out = String::new();
+        for r in res.iter() {
+            out.push_str(r);
+            out.push('\n');
+        }
+        print!("{}", out);
+        return;
+    }
     let results: Arc<Mutex<Vec<Option<String>>>> = Arc::new(Mutex::new(vec![None; n]));
     let next = Arc::new(AtomicUsize::new(0));
     // per worker slot: (case index, start) of the case in progress
